@@ -127,13 +127,16 @@ func (r *runner) parked(t int) bool {
 // settle: after a step of runner thread t wait until it is quiescent again.
 func (r *runner) settle(t int, kind string) {
 	if m, ok := r.w.msgs[t]; ok && !r.w.cancelled {
-		silent := (kind == "U" && m.lastFlag && m.gotWake) || kind == "GW" || (kind == "X" && m.lastXok)
+		silent := (kind == "P" && m.gotWake) || kind == "GW" || (kind == "X" && m.lastXok)
 		if silent {
 			r.setParked(t, true)
+			r.syncWake(t)
 			return
 		}
 	}
-	if !r.waitEvt(t, curTimeout()) {
+	if r.waitEvt(t, curTimeout()) {
+		r.noteWake(t)
+	} else {
 		if os.Getenv("VERIF_RUNNER_DEBUG") != "" {
 			r.w.mu.Lock()
 			fmt.Fprintf(os.Stderr, "settle timeout: thread %x after %s; log: %s\n", t, kind, strings.Join(r.w.log, " "))
@@ -144,6 +147,64 @@ func (r *runner) settle(t int, kind string) {
 		} else {
 			r.w.stuck[t] = true
 		}
+	}
+}
+
+// wakeSend is the second statement of SetCyclicTransmissionEnabled: a non-blocking send on the
+// wake-up channel of capacity one.
+func (r *runner) wakeSend(app, m int) {
+	msg := r.w.msgs[m]
+	select {
+	case msg.wakeCh <- struct{}{}:
+	default:
+	}
+	msg.token = true
+	r.w.emit(fmt.Sprintf("WS.%x.%x", app, m))
+	r.syncWake(m)
+}
+
+// noteWake logs the select case "wake-up" when transmitter t has shown up at an interface point
+// and the token is gone from the channel.
+func (r *runner) noteWake(t int) {
+	m := r.w.msgs[t]
+	if m == nil || !m.token {
+		return
+	}
+	r.w.mu.Lock()
+	arrived := r.w.waiting[t] != nil
+	r.w.mu.Unlock()
+	if arrived && len(m.wakeCh) == 0 {
+		m.token = false
+		r.w.emit(fmt.Sprintf("WK.%x", t))
+	}
+}
+
+// syncWake: a parked transmitter with a token in its wake-up channel takes the token (the real
+// channel decides, not the scheduler); wait for it to show up at Lock and log the Wake there, so
+// that the logged order stays a linearisation.  If the token disappears from the channel and the
+// loop does NOT come back to re-read the flag, a receive happened that the model does not have:
+// logged as WD.t ("wake-up token dropped").
+func (r *runner) syncWake(t int) {
+	m := r.w.msgs[t]
+	if m == nil || !m.token || !m.gotWake {
+		return
+	}
+	r.noteWake(t) // it may already be back at Lock
+	if !m.token || !r.parked(t) {
+		return
+	}
+	if r.waitEvt(t, curTimeout()) {
+		r.noteWake(t)
+		return
+	}
+	if len(m.wakeCh) == 0 {
+		// give a slow machine more time before calling it a dropped token
+		if r.waitEvt(t, 4*curTimeout()) {
+			r.noteWake(t)
+			return
+		}
+		m.token = false
+		r.w.emit(fmt.Sprintf("WD.%x", t))
 	}
 }
 
@@ -225,9 +286,6 @@ func (r *runner) enabled() []action {
 		if !r.parked(x.tid) || !m.gotWake {
 			continue
 		}
-		if m.token {
-			acts = append(acts, action{kind: "wake", tid: x.tid})
-		}
 		for _, a := range r.apps {
 			if a.offering == x.tid {
 				acts = append(acts, action{kind: "accept", tid: x.tid, a: a})
@@ -244,6 +302,7 @@ func (r *runner) doCancel() {
 	for _, x := range r.sc.txs {
 		if r.parked(x.tid) {
 			r.waitEvt(x.tid, curTimeout())
+			r.noteWake(x.tid)
 		}
 	}
 }
@@ -257,16 +316,6 @@ func (r *runner) exec(a action) {
 		w.mu.Unlock()
 		if p != nil {
 			r.grant(a.tid, p)
-		}
-	case "wake":
-		m := w.msgs[a.tid]
-		if r.deliver(a.tid, m.wakeOut) {
-			m.token = false
-			w.emit(fmt.Sprintf("WK.%x", a.tid))
-			r.setParked(a.tid, false)
-			if !r.waitEvt(a.tid, curTimeout()) {
-				r.setParked(a.tid, true) // did not react to the wake-up: assume it is back in select
-			}
 		}
 	case "accept":
 		m := w.msgs[a.tid]
@@ -296,8 +345,7 @@ func (r *runner) exec(a action) {
 			w.msgs[op.m].flag = op.b
 			w.emit(fmt.Sprintf("SF.%x.%x.%s", ap.tid, op.m, b01(op.b)))
 		case "wakesend":
-			w.msgs[op.m].token = true
-			w.emit(fmt.Sprintf("WS.%x.%x", ap.tid, op.m))
+			r.wakeSend(ap.tid, op.m)
 		case "offer":
 			ap.offering = op.m
 			w.emit(fmt.Sprintf("OF.%x.%x", ap.tid, op.m))
@@ -315,6 +363,7 @@ func (r *runner) exec(a action) {
 				select {
 				case <-w.evt[op.m]:
 					w.notify(op.m)
+					r.noteWake(op.m)
 				case <-time.After(40 * time.Millisecond):
 				}
 			}
@@ -347,7 +396,7 @@ func setup(sc scenario, dir *directed) (*runner, string) {
 			d.CycleTime = time.Millisecond
 			role = "txc"
 		}
-		m := &fakeTxMsg{w: w, n: n, tid: x.tid, desc: d, wakeOut: make(chan struct{}), evOut: make(chan struct{}),
+		m := &fakeTxMsg{w: w, n: n, tid: x.tid, desc: d, wakeCh: make(chan struct{}, 1), evOut: make(chan struct{}),
 			hookFail: x.hookFail, hookLock: x.hookLock, txFail: x.txFail}
 		w.msgs[x.tid] = m
 		r.threads = append(r.threads, x.tid)
